@@ -32,7 +32,29 @@ validate by accident):
 * `while` and sibling calls consume fuel; running out raises the pseudo-exception `OutOfFuel`.
 * external functions (`derive_phase_key`, `encrypt_data`, `decrypt_data`, `int`, `re.search`, f-strings …)
   and `"%d" % n` get their meaning from `Env`; they are pure and may raise.
-* `except Cls:` matches the exception class by name (no subclass relation).
+* `except Cls:` / `except (A, B):` match the exception class by name (no subclass relation).
+* `x = self._X.meth(…)` (`emitTo`) records the call like any collaborator call; its value is `Env.rets k`.
+* `with self._X.meth(…):` is translated as the recorded call followed by the block: the context manager's
+  `__exit__` is assumed not to swallow exceptions (the only one in the translated code is `DebugTiming`'s event).
+* a keyword argument of a recorded call is passed positionally after the positional ones and its name is
+  appended to the method name: `add("pake1", waiting="crypto")` is the call `add[waiting]("pake1", "crypto")`.
+
+[dil] additions for the Dilation data path (`_dilation/outbound.py`, `inbound.py`; `WV.Gen.PyIRDil`), all additive:
+* `Val.ref cls id` is an object with identity (a producer, a subchannel, a connection): hashable, `==` is identity
+  (`id`), truthy.  `Val.nint n` is the negative int `-(n+1)` (`_highest_inbound_acked` starts at -1); `le`/`max2`
+  work on both kinds of int, every other arithmetic on a negative int stays `Unsupported`.
+* a namedtuple record (`Open/Data/Close/Ack/…`) is `Val.obj cls fields`; `r.seqnum` is `fieldAt r "seqnum" i` with the
+  position `i` computed by the translator from the record classes of the working tree (it refuses when the classes
+  having that field disagree on its position).
+* `isinstanceAny e [A, B]` matches the class name of an `obj`/`ref` (no subclass relation).
+* a deque is a `list` (left = index 0): `extend`, `listRemove` (ValueError), `rotateLeft` (= `rotate(-1)`),
+  `clearAny`; sets: `setDiscard`, `setRemove` (KeyError), `isDisjoint`, `setUnion`, `setOf`, `setEq`.
+* `break`/`continue` are the pseudo-exceptions `$break`/`$continue`, caught by the loops `whileBC`/`forInBC` that the
+  translator emits for every loop containing one; no `except` clause can name them.
+* `emitA`/`emitV` record a call on a collaborator held in an attribute (AttributeError when it is `None`) / on a
+  value; after the call is recorded, `Env.reenter k` (default: nothing) lists sibling methods that the callee
+  calls back synchronously on `self` before it returns (the transport calling `pauseProducing()` from inside
+  `send_record`) — they are interpreted, with the remaining fuel, on the heap as it is at that moment.
 -/
 namespace WV.PyIR
 
@@ -47,6 +69,10 @@ inductive Val where
   | dict (kvs : List (Val × Val))
   | set (vs : List Val)
   | obj (cls : String) (fields : List Val)     -- `Cls(args…)`: exception instances and the like
+  -- [dil] begin
+  | ref (cls : String) (id : Nat)              -- an object with identity: `==`/hash by `id`
+  | nint (n : Nat)                             -- the negative int `-(n+1)`
+  -- [dil] end
   deriving Inhabited
 
 /-- result of evaluating an expression: a value or a raised exception class -/
@@ -79,6 +105,10 @@ def Val.truthy : Val → Bool
   | .dict kvs => !kvs.isEmpty
   | .set vs => !vs.isEmpty
   | .obj _ _ => true
+  -- [dil] begin
+  | .ref _ _ => true
+  | .nint _ => true
+  -- [dil] end
 
 /-- `a == b` on scalars; `none` = outside the subset -/
 def scalarEq : Val → Val → Option Bool
@@ -94,6 +124,14 @@ def scalarEq : Val → Val → Option Bool
   | .int _, .none | .int _, .str _ | .int _, .bytes _ => some false
   | .str _, .none | .str _, .bool _ | .str _, .int _ | .str _, .bytes _ => some false
   | .bytes _, .none | .bytes _, .bool _ | .bytes _, .int _ | .bytes _, .str _ => some false
+  -- [dil] begin
+  | .ref _ a, .ref _ b => some (a == b)
+  | .ref _ _, .none | .ref _ _, .int _ | .ref _ _, .str _ | .ref _ _, .bytes _ | .ref _ _, .nint _ => some false
+  | .none, .ref _ _ | .int _, .ref _ _ | .str _, .ref _ _ | .bytes _, .ref _ _ | .nint _, .ref _ _ => some false
+  | .nint a, .nint b => some (a == b)
+  | .nint _, .none | .nint _, .int _ | .nint _, .str _ | .nint _, .bytes _ => some false
+  | .none, .nint _ | .int _, .nint _ | .str _, .nint _ | .bytes _, .nint _ => some false
+  -- [dil] end
   | _, _ => none
 
 def pyEq (a b : Val) : Res Bool :=
@@ -135,6 +173,9 @@ def dictDel (k : Val) : List (Val × Val) → Res (List (Val × Val))
 /-- hashable = usable as a dict key / set element (scalars; tuples of them are not needed) -/
 def Val.hashable : Val → Bool
   | .none | .bool _ | .int _ | .str _ | .bytes _ => true
+  -- [dil] begin
+  | .ref _ _ | .nint _ => true
+  -- [dil] end
   | _ => false
 
 def isInstance (v : Val) (ty : String) : Res Bool :=
@@ -145,6 +186,10 @@ def isInstance (v : Val) (ty : String) : Res Bool :=
   | "bytes", _ => .ok false
   | "int", .int _ => .ok true
   | "int", .bool _ => .ok true          -- bool is a subclass of int
+  -- [dil] begin
+  | "int", .nint _ => .ok true
+  | "dict", .ref _ _ | "tuple", .ref _ _ | "list", .ref _ _ | "set", .ref _ _ => unsupported
+  -- [dil] end
   | "int", _ => .ok false
   | "bool", .bool _ => .ok true
   | "bool", _ => .ok false
@@ -187,6 +232,18 @@ inductive Expr where
   | tuple (es : List Expr)
   | construct (cls : String) (es : List Expr)   -- `Cls(args…)`
   | call (f : String) (es : List Expr)          -- external function
+  -- [dil] begin
+  | le (a b : Expr)                             -- `a <= b` (ints of either sign)
+  | max2 (a b : Expr)                           -- `max(a, b)`
+  | fieldAt (a : Expr) (name : String) (i : Nat)   -- `a.<name>`, the field at position `i` of a namedtuple-like object
+  | isinstanceAny (a : Expr) (clss : List String)  -- `isinstance(a, (A, B, …))`, project classes by name
+  | applyCls (f : Expr) (es : List Expr) (star : Option Expr)   -- `f(es…, *star)` where the local `f` holds a record class
+  | truthOf (a : Expr)                          -- `bool(a)`
+  | getD (d k dflt : Expr)                      -- `d.get(k, dflt)`
+  | isDisjoint (a b : Expr)                     -- `a.isdisjoint(b)`
+  | setUnion (a b : Expr)                       -- `a.union(b)`
+  | setEq (a b : Expr)                          -- `set(a) == set(b)` (operands: sets or deques/lists)
+  -- [dil] end
   deriving Inhabited
 
 inductive ForPat where
@@ -218,6 +275,24 @@ inductive Stmt where
   | ret (e : Option Expr)
   | raise (cls : String) (args : List Expr)
   | pass
+  -- phase 2 (control machines)
+  | emitTo (x : String) (obj meth : String) (args : List Expr)     -- `x = self.<obj>.<meth>(args…)`: recorded; the value is `env.rets k`
+  | tryExceptAny (body : List Stmt) (clss : List String) (x : Option String) (handler : List Stmt)   -- `except (A, B, …)`
+  -- [dil] begin
+  | extend (a : String) (e : Expr)                        -- `self.<a>.extend(e)` (deque/list)
+  | clearAny (a : String)                                 -- `self.<a>.clear()`
+  | setDiscard (a : String) (e : Expr)                    -- `self.<a>.discard(e)`
+  | setRemove (a : String) (e : Expr)                     -- `self.<a>.remove(e)` on a set (KeyError)
+  | listRemove (a : String) (e : Expr)                    -- `self.<a>.remove(e)` on a deque/list (ValueError)
+  | rotateLeft (a : String)                               -- `self.<a>.rotate(-1)`
+  | delItem (a : String) (k : Expr)                       -- `del self.<a>[k]` (KeyError)
+  | emitA (obj meth : String) (args : List Expr)          -- `self.<obj>.<meth>(args…)`; `None` receiver = AttributeError; may re-enter
+  | emitV (recv : Expr) (meth : String) (args : List Expr)   -- `<value>.<meth>(args…)`; recorded with the receiver as first argument; may re-enter
+  | whileBC (c : Expr) (body : List Stmt)                 -- a `while` whose body contains `break`/`continue`
+  | forInBC (p : ForPat) (src : Expr) (body : List Stmt)  -- a `for` whose body contains `break`/`continue`
+  | brk
+  | cont
+  -- [dil] end
   deriving Inhabited
 
 /-! ## state -/
@@ -259,6 +334,10 @@ structure Env where
   ext : String → List Val → Res Val
   fmtD : Nat → String
   raises : Nat → Option String      -- the k-th recorded call (0-based) raises this class after being recorded
+  rets : Nat → Val := fun _ => .none   -- what the k-th recorded call returns (only read by `emitTo`)
+  -- [dil] begin
+  reenter : Nat → List (String × List Val) := fun _ => []   -- sibling methods the k-th recorded call (emitA/emitV) calls back on `self` before it returns
+  -- [dil] end
 
 abbrev MethodTable := String → Option (List String × List Stmt)
 
@@ -302,6 +381,10 @@ def valLen : Val → Res Val
   | .dict kvs => .ok (.int kvs.length)
   | .none | .bool _ | .int _ => .exc "TypeError"
   | .obj _ _ => unsupported
+  -- [dil] begin
+  | .ref _ _ => unsupported
+  | .nint _ => .exc "TypeError"
+  -- [dil] end
 
 def valIndex (a b : Val) : Res Val :=
   match a with
@@ -325,6 +408,110 @@ def valItems : Val → Res Val
   | .dict kvs => .ok (.list (kvs.map (fun kv => .tuple [kv.1, kv.2])))
   | .none => .exc "AttributeError"
   | _ => unsupported
+
+-- [dil] begin
+def Val.toInt? : Val → Option Int
+  | .int n => some (Int.ofNat n)
+  | .nint n => some (Int.negSucc n)
+  | _ => Option.none
+
+def Val.ofInt : Int → Val
+  | .ofNat n => .int n
+  | .negSucc n => .nint n
+
+/-- `a <= b` on ints of either sign -/
+def valLe (a b : Val) : Res Bool :=
+  match a.toInt?, b.toInt? with
+  | some x, some y => .ok (decide (x ≤ y))
+  | _, _ => unsupported
+
+/-- `max(a, b)` on ints of either sign -/
+def valMax (a b : Val) : Res Val :=
+  match a.toInt?, b.toInt? with
+  | some x, some y => .ok (Val.ofInt (if x ≤ y then y else x))
+  | _, _ => unsupported
+
+/-- `e.<name>` for a namedtuple-like object whose field `name` sits at position `i` -/
+def valField (v : Val) (i : Nat) : Res Val :=
+  match v with
+  | .obj _ fs => match fs[i]? with
+    | some x => .ok x
+    | Option.none => .exc "AttributeError"
+  | .none | .bool _ | .int _ | .str _ | .bytes _ | .nint _ => .exc "AttributeError"
+  | _ => unsupported
+
+/-- `isinstance(v, (A, B, …))` for classes of the project, by name -/
+def isInstanceAny (v : Val) (clss : List String) : Res Bool :=
+  match v with
+  | .obj c _ | .ref c _ => .ok (clss.contains c)
+  | .none | .bool _ | .int _ | .str _ | .bytes _ | .nint _ => .ok false
+  | _ => unsupported
+
+/-- the elements of a set / deque / list operand of a set operation -/
+def setElems : Val → Res (List Val)
+  | .set vs | .list vs => .ok vs
+  | .none | .bool _ | .int _ | .nint _ => .exc "TypeError"
+  | _ => unsupported
+
+/-- all elements equal to `k` removed (`set.discard`) -/
+def setDel (k : Val) : List Val → Res (List Val)
+  | [] => .ok []
+  | x :: r => do
+    let e ← pyEq x k
+    let r' ← setDel k r
+    if e then pure r' else pure (x :: r')
+
+/-- `deque.remove(k)`: the first element equal to `k` removed; `none` = there is none (ValueError) -/
+def listRemove1 (k : Val) : List Val → Res (Option (List Val))
+  | [] => .ok Option.none
+  | x :: r => do
+    let e ← pyEq x k
+    if e then pure (some r) else do
+      let r' ← listRemove1 k r
+      pure (r'.map (x :: ·))
+
+/-- no element of `a` is in `b` -/
+def allNotIn (b : List Val) : List Val → Res Bool
+  | [] => .ok true
+  | x :: r => do
+    let m ← memKeys x b
+    if m then pure false else allNotIn b r
+
+/-- every element of `a` is in `b` -/
+def allIn (b : List Val) : List Val → Res Bool
+  | [] => .ok true
+  | x :: r => do
+    let m ← memKeys x b
+    if m then allIn b r else pure false
+
+/-- the elements of `b` that are not in `a` -/
+def notInOf (a : List Val) : List Val → Res (List Val)
+  | [] => .ok []
+  | x :: r => do
+    let m ← memKeys x a
+    let r' ← notInOf a r
+    if m then pure r' else pure (x :: r')
+
+def allHashable (vs : List Val) : Bool := vs.all Val.hashable
+
+/-- the elements of `*args` -/
+def starElems : Val → Res (List Val)
+  | .list vs | .tuple vs => .ok vs
+  | _ => unsupported
+
+/-- `d.get(k, dflt)` -/
+def valGetD (d k dflt : Val) : Res Val :=
+  match d with
+  | .dict kvs =>
+    if k.hashable then (do
+      let r ← dictGet k kvs
+      match r with
+      | some v => pure v
+      | Option.none => pure dflt)
+    else .exc "TypeError"
+  | .none | .bool _ | .int _ | .nint _ => .exc "AttributeError"
+  | _ => unsupported
+-- [dil] end
 
 mutual
 def evalE (env : Env) (σ : St) : Expr → Res Val
@@ -416,6 +603,73 @@ def evalE (env : Env) (σ : St) : Expr → Res Val
   | .call f es => do
     let vs ← evalEs env σ es
     env.ext f vs
+  -- [dil] begin
+  | .le a b => do
+    let va ← evalE env σ a
+    let vb ← evalE env σ b
+    let r ← valLe va vb
+    pure (.bool r)
+  | .max2 a b => do
+    let va ← evalE env σ a
+    let vb ← evalE env σ b
+    valMax va vb
+  | .fieldAt a _ i => do
+    let va ← evalE env σ a
+    valField va i
+  | .isinstanceAny a clss => do
+    let va ← evalE env σ a
+    let r ← isInstanceAny va clss
+    pure (.bool r)
+  | .applyCls f es star => do
+    let vf ← evalE env σ f
+    let vs ← evalEs env σ es
+    let extra ← (match star with
+      | Option.none => Res.ok []
+      | some e => do
+        let ve ← evalE env σ e
+        starElems ve)
+    match vf with
+    | .obj "type" [.str cls] => pure (.obj cls (vs ++ extra))
+    | _ => unsupported
+  | .truthOf a => do
+    let va ← evalE env σ a
+    pure (.bool va.truthy)
+  | .getD d k dflt => do
+    let vd ← evalE env σ d
+    let vk ← evalE env σ k
+    let vdf ← evalE env σ dflt
+    valGetD vd vk vdf
+  | .isDisjoint a b => do
+    let va ← evalE env σ a
+    let vb ← evalE env σ b
+    let xs ← setElems va
+    let ys ← setElems vb
+    if allHashable xs && allHashable ys then (do
+      let r ← allNotIn ys xs
+      pure (.bool r))
+    else .exc "TypeError"
+  | .setUnion a b => do
+    let va ← evalE env σ a
+    let vb ← evalE env σ b
+    match va with
+    | .set xs => do
+      let ys ← setElems vb
+      if allHashable ys then (do
+        let extra ← notInOf xs ys
+        pure (.set (xs ++ extra)))
+      else .exc "TypeError"
+    | _ => unsupported
+  | .setEq a b => do
+    let va ← evalE env σ a
+    let vb ← evalE env σ b
+    let xs ← setElems va
+    let ys ← setElems vb
+    if allHashable xs && allHashable ys then (do
+      let r1 ← allIn ys xs
+      let r2 ← allIn xs ys
+      pure (.bool (r1 && r2)))
+    else .exc "TypeError"
+  -- [dil] end
 def evalEs (env : Env) (σ : St) : List Expr → Res (List Val)
   | [] => .ok []
   | e :: r => do
@@ -480,6 +734,47 @@ def doEmit (env : Env) (σ : St) (obj meth : String) (vs : List Val) : St × Flo
   match env.raises σ.calls.length with
   | Option.none => (σ1, .norm)
   | some c => (σ1, .exc c)
+
+-- [dil] begin
+def whileLoopBC (cond : St → Res Val) (body : St → St × Flow) : Nat → St → St × Flow
+  | 0, σ => (σ, .exc "OutOfFuel")
+  | fuel + 1, σ =>
+    withVal σ (cond σ) fun c =>
+      if c.truthy then
+        match body σ with
+        | (σ1, .norm) => whileLoopBC cond body fuel σ1
+        | (σ1, .exc x) =>
+          if x = "$break" then (σ1, .norm)
+          else if x = "$continue" then whileLoopBC cond body fuel σ1
+          else (σ1, .exc x)
+        | r => r
+      else (σ, .norm)
+
+def forLoopBC (p : ForPat) (body : St → St × Flow) : List Val → St → St × Flow
+  | [], σ => (σ, .norm)
+  | v :: r, σ =>
+    withVal σ (bindPat σ p v) fun σ1 =>
+      match body σ1 with
+      | (σ2, .norm) => forLoopBC p body r σ2
+      | (σ2, .exc x) =>
+        if x = "$break" then (σ2, .norm)
+        else if x = "$continue" then forLoopBC p body r σ2
+        else (σ2, .exc x)
+      | res => res
+
+/-- the callbacks a recorded call makes on `self` before it returns -/
+def runReenter (self : SelfCall) : List (String × List Val) → St → St × Flow
+  | [], σ => (σ, .norm)
+  | (m, args) :: r, σ =>
+    match self m args σ.heap σ.calls with
+    | (h, cs, .ok _) => runReenter self r { σ with heap := h, calls := cs }
+    | (h, cs, .exc c) => ({ σ with heap := h, calls := cs }, .exc c)
+
+def doEmitR (env : Env) (self : SelfCall) (σ : St) (obj meth : String) (vs : List Val) : St × Flow :=
+  match doEmit env σ obj meth vs with
+  | (σ1, .norm) => runReenter self (env.reenter σ.calls.length) σ1
+  | r => r
+-- [dil] end
 
 mutual
 def execS (env : Env) (self : SelfCall) (fuel : Nat) : Stmt → St → St × Flow
@@ -591,6 +886,102 @@ def execS (env : Env) (self : SelfCall) (fuel : Nat) : Stmt → St → St × Flo
   | .ret (some e), σ => withVal σ (evalE env σ e) fun v => (σ, .ret v)
   | .raise cls args, σ => withVal σ (evalEs env σ args) fun _ => (σ, .exc cls)
   | .pass, σ => (σ, .norm)
+  | .emitTo x obj meth args, σ =>
+    withVal σ (readAttr σ obj) fun _ =>
+    withVal σ (evalEs env σ args) fun vs =>
+      match doEmit env σ obj meth vs with
+      | (σ1, .norm) => (σ1.setLocal x (env.rets σ.calls.length), .norm)
+      | r => r
+  | .tryExceptAny body clss x handler, σ =>
+    match execB env self fuel body σ with
+    | (σ1, .exc c) =>
+      if clss.contains c then execB env self fuel handler (σ1.bindOpt x (.obj c [])) else (σ1, .exc c)
+    | r => r
+  -- [dil] begin
+  | .extend a e, σ =>
+    withVal σ (readAttr σ a) fun d =>
+    withVal σ (evalE env σ e) fun v =>
+      match d with
+      | .list vs => withVal σ (iterElems v) fun ws => (σ.setAttr a (.list (vs ++ ws)), .norm)
+      | .none | .bool _ | .int _ => (σ, .exc "AttributeError")
+      | _ => (σ, .exc "Unsupported")
+  | .clearAny a, σ =>
+    withVal σ (readAttr σ a) fun d =>
+      match d with
+      | .list _ => (σ.setAttr a (.list []), .norm)
+      | .set _ => (σ.setAttr a (.set []), .norm)
+      | .dict _ => (σ.setAttr a (.dict []), .norm)
+      | .none | .bool _ | .int _ => (σ, .exc "AttributeError")
+      | _ => (σ, .exc "Unsupported")
+  | .setDiscard a e, σ =>
+    withVal σ (readAttr σ a) fun d =>
+    withVal σ (evalE env σ e) fun v =>
+      match d with
+      | .set vs =>
+        if v.hashable then withVal σ (setDel v vs) fun vs' => (σ.setAttr a (.set vs'), .norm)
+        else (σ, .exc "TypeError")
+      | .none | .bool _ | .int _ => (σ, .exc "AttributeError")
+      | _ => (σ, .exc "Unsupported")
+  | .setRemove a e, σ =>
+    withVal σ (readAttr σ a) fun d =>
+    withVal σ (evalE env σ e) fun v =>
+      match d with
+      | .set vs =>
+        if v.hashable then
+          withVal σ (memKeys v vs) fun m =>
+            if m then withVal σ (setDel v vs) fun vs' => (σ.setAttr a (.set vs'), .norm)
+            else (σ, .exc "KeyError")
+        else (σ, .exc "TypeError")
+      | .none | .bool _ | .int _ => (σ, .exc "AttributeError")
+      | _ => (σ, .exc "Unsupported")
+  | .listRemove a e, σ =>
+    withVal σ (readAttr σ a) fun d =>
+    withVal σ (evalE env σ e) fun v =>
+      match d with
+      | .list vs =>
+        withVal σ (listRemove1 v vs) fun r =>
+          match r with
+          | some vs' => (σ.setAttr a (.list vs'), .norm)
+          | Option.none => (σ, .exc "ValueError")
+      | .none | .bool _ | .int _ => (σ, .exc "AttributeError")
+      | _ => (σ, .exc "Unsupported")
+  | .rotateLeft a, σ =>
+    withVal σ (readAttr σ a) fun d =>
+      match d with
+      | .list [] => (σ, .norm)
+      | .list (v :: r) => (σ.setAttr a (.list (r ++ [v])), .norm)
+      | .none | .bool _ | .int _ => (σ, .exc "AttributeError")
+      | _ => (σ, .exc "Unsupported")
+  | .delItem a k, σ =>
+    withVal σ (readAttr σ a) fun d =>
+    withVal σ (evalE env σ k) fun vk =>
+      match d with
+      | .dict kvs =>
+        if vk.hashable then
+          withVal σ (dictGet vk kvs) fun r =>
+            match r with
+            | Option.none => (σ, .exc "KeyError")
+            | some _ => withVal σ (dictDel vk kvs) fun kvs' => (σ.setAttr a (.dict kvs'), .norm)
+        else (σ, .exc "TypeError")
+      | .none | .bool _ | .int _ => (σ, .exc "TypeError")
+      | _ => (σ, .exc "Unsupported")
+  | .emitA obj meth args, σ =>
+    withVal σ (readAttr σ obj) fun recv =>
+      match recv with
+      | .none => (σ, .exc "AttributeError")
+      | _ => withVal σ (evalEs env σ args) fun vs => doEmitR env self σ obj meth vs
+  | .emitV recv meth args, σ =>
+    withVal σ (evalE env σ recv) fun rv =>
+      match rv with
+      | .none => (σ, .exc "AttributeError")
+      | _ => withVal σ (evalEs env σ args) fun vs => doEmitR env self σ "$v" meth (rv :: vs)
+  | .whileBC c body, σ => whileLoopBC (fun s => evalE env s c) (execB env self fuel body) fuel σ
+  | .forInBC p src body, σ =>
+    withVal σ (evalE env σ src) fun v =>
+    withVal σ (iterElems v) fun vs => forLoopBC p (execB env self fuel body) vs σ
+  | .brk, σ => (σ, .exc "$break")
+  | .cont, σ => (σ, .exc "$continue")
+  -- [dil] end
 def execB (env : Env) (self : SelfCall) (fuel : Nat) : List Stmt → St → St × Flow
   | [], σ => (σ, .norm)
   | s :: r, σ => andThen (execS env self fuel s σ) (execB env self fuel r)
